@@ -98,6 +98,125 @@ pub open spec fn redelegated(s0: St, s1: St, block: BlockInfo, sender: Addr, src
             && upd_post(w1, sm2, dst, block.time) && swf(sm2) && stake_changed(sm2, sw(s1), sender, dst, amount.amount.u as nat, false)
 }
 
+// ---- process_queue: pay out the matured unbondings
+// ASSUMPTION on the router (proved for the repo's Router + BankKeeper: C17 dispatch in group app, C09 splice in group
+// bank): executing a BANK message through the router does not touch the staking module's window of the store
+pub axiom fn axiom_router_bank_frame<ExecC, QueryC>(router: &dyn CosmosRouter<ExecC, QueryC>, s: St, block: BlockInfo, sender: Addr, m: BankMsg)
+    ensures sw(router.exec_sem(s, block, sender, CosmosMsg::Bank(m)).1) == sw(s);
+
+pub open spec fn pq_due(u: Unbonding, now: Timestamp) -> bool { u.payout_at.nanos <= now.nanos }
+// the housekeeping before paying entry u: only u's stake entry and its validator's info record may change, invariant kept
+pub open spec fn pq_cleaned(w0: St, w1: St, u: Unbonding) -> bool {
+    frame2(w0, w1, u.delegator, u.validator@) && swf(w1)
+}
+pub open spec fn pay_msg<ExecC>(u: Unbonding, denom: Seq<char>) -> CosmosMsg<ExecC> {
+    send_msg::<ExecC>(u.delegator.s@, seq![Coin { denom: str_of(denom), amount: u.amount }])
+}
+// one matured entry u processed: the full amount is sent by the bank from the staking pool to the delegator
+pub open spec fn pq_step<ExecC, QueryC>(router: &dyn CosmosRouter<ExecC, QueryC>, k: StakeKeeper, s: St, s2: St, block: BlockInfo, u: Unbonding) -> bool {
+    exists|w1: St| pq_cleaned(sw(s), w1, u) && ({
+        let sc = splice(s, lp(ns_staking()), w1);
+        if u.amount.u == 0 { s2 == sc } else {
+            let pr = router.exec_sem(sc, block, k.module_addr, pay_msg::<ExecC>(u, sinfo_denom(w1)));
+            pr.0 is Ok && s2 == pr.1
+        }
+    })
+}
+// the run over queue q from store s: entries are taken from the front while they are due (payout_at <= block time),
+// each is paid in full; the first entry that is not yet due stops the run (nothing is paid before its time)
+pub open spec fn pq_run<ExecC, QueryC>(router: &dyn CosmosRouter<ExecC, QueryC>, k: StakeKeeper, s: St, block: BlockInfo, q: Seq<Unbonding>, s_end: St, q_end: Seq<Unbonding>) -> bool
+    decreases q.len()
+{
+    if q.len() == 0 || !pq_due(q[0], block.time) { s_end == s && q_end == q }
+    else { exists|s2: St| pq_step(router, k, s, s2, block, q[0]) && pq_run(router, k, s2, block, q.drop_first(), s_end, q_end) }
+}
+pub proof fn lemma_pq_step<ExecC, QueryC>(router: &dyn CosmosRouter<ExecC, QueryC>, k: StakeKeeper, s: St, s2: St, block: BlockInfo, q: Seq<Unbonding>, s_end: St, q_end: Seq<Unbonding>)
+    requires q.len() > 0, pq_due(q[0], block.time), pq_step(router, k, s, s2, block, q[0]), pq_run(router, k, s2, block, q.drop_first(), s_end, q_end)
+    ensures pq_run(router, k, s, block, q, s_end, q_end)
+{
+}
+pub proof fn lemma_pay_msg<ExecC>(m: CosmosMsg<ExecC>, u: Unbonding, denom: Seq<char>)
+    requires m is Bank && (m->Bank_0) is Send && (m->Bank_0)->to_address@ == u.delegator.s@ && (m->Bank_0)->Send_amount@.len() == 1 && (m->Bank_0)->Send_amount@[0].amount == u.amount && (m->Bank_0)->Send_amount@[0].denom@ == denom
+    ensures m == pay_msg::<ExecC>(u, denom)
+{
+    broadcast use {axiom_vec_canon, axiom_vec_of_view, axiom_str_canon, axiom_str_of_view, lemma_str_ext_b, lemma_vec_ext_b};
+    let amount = (m->Bank_0)->Send_amount;
+    let c = Coin { denom: str_of(denom), amount: u.amount };
+    axiom_str_canon(amount@[0].denom);
+    assert(amount@[0] == c);
+    assert(amount@ =~= seq![c]);
+    axiom_vec_canon(amount);
+    axiom_str_canon((m->Bank_0)->to_address);
+}
+// loop invariant: every run from the current (store, queue) is a run from the initial one
+pub open spec fn pq_inv<ExecC, QueryC>(router: &dyn CosmosRouter<ExecC, QueryC>, k: StakeKeeper, s0: St, q0: Seq<Unbonding>, s: St, q: Seq<Unbonding>, block: BlockInfo) -> bool {
+    forall|se: St, qe: Seq<Unbonding>| #[trigger] pq_run(router, k, s, block, q, se, qe) ==> pq_run(router, k, s0, block, q0, se, qe)
+}
+pub proof fn lemma_pq_inv_step<ExecC, QueryC>(router: &dyn CosmosRouter<ExecC, QueryC>, k: StakeKeeper, s0: St, q0: Seq<Unbonding>, s: St, q: Seq<Unbonding>, s2: St, block: BlockInfo)
+    requires pq_inv(router, k, s0, q0, s, q, block), q.len() > 0, pq_due(q[0], block.time), pq_step(router, k, s, s2, block, q[0])
+    ensures pq_inv(router, k, s0, q0, s2, q.drop_first(), block)
+{
+    assert forall|se: St, qe: Seq<Unbonding>| #[trigger] pq_run(router, k, s2, block, q.drop_first(), se, qe) implies pq_run(router, k, s0, block, q0, se, qe) by {
+        lemma_pq_step(router, k, s, s2, block, q, se, qe);
+    }
+}
+// writing the queue record does not disturb the typed entries
+pub proof fn lemma_queue_write_swf(w: St, w2: St)
+    requires swf(w), forall|k: Seq<u8>| k != k_queue() ==> #[trigger] same_at(w2, w, k)
+    ensures swf(w2)
+{
+    assert forall|v2: Seq<char>, d2: Addr| #[trigger] has_staker(w2, v2, d2) implies has_shares(w2, d2, v2) by {
+        lemma_keys_disjoint(d2, v2, v2);
+        assert(same_at(w2, w, k_vinfo(v2))); assert(same_at(w2, w, k_stake(d2, v2)));
+        assert(has_staker(w, v2, d2));
+    }
+    assert forall|d2: Addr, v2: Seq<char>| #[trigger] has_shares(w2, d2, v2) implies has_staker(w2, v2, d2) by {
+        lemma_keys_disjoint(d2, v2, v2);
+        assert(same_at(w2, w, k_vinfo(v2))); assert(same_at(w2, w, k_stake(d2, v2)));
+        assert(has_shares(w, d2, v2));
+    }
+    assert forall|v2: Seq<char>| #[trigger] vobj_ok_at(w2, v2) by {
+        lemma_keys_disjoint(arbitrary(), v2, v2);
+        assert(same_at(w2, w, k_vmap(v2)));
+        assert(vobj_ok_at(w, v2));
+    }
+}
+// what process_queue did: a run from the stored queue, then the remaining queue is stored
+pub open spec fn queue_processed<ExecC, QueryC>(router: &dyn CosmosRouter<ExecC, QueryC>, k: StakeKeeper, s0: St, s1: St, block: BlockInfo) -> bool {
+    exists|se: St, qe: Seq<Unbonding>| pq_run(router, k, s0, block, queue_of(sw(s0)), se, qe) && only_staking(se, s1)
+        && (get_queue(sw(s1)) matches Ok(Some(q1)) && q1@ == qe) && forall|kk: Seq<u8>| kk != k_queue() ==> #[trigger] same_at(sw(s1), sw(se), kk)
+}
+
+//@ impl_open src/staking.rs :: StakeKeeper
+//@ end
+//@ fn src/staking.rs :: StakeKeeper :: process_queue
+//@   ret r
+//@   requires [C14.pq.pre_swf] swf(sw(old(storage).view()))
+//@   ensures [C14.pq.run,C15] r is Ok ==> queue_processed(router, *self, old(storage).view(), final(storage).view(), *block)
+//@   ensures [C14.pq.swf,C15,C16] r is Ok ==> swf(sw(final(storage).view()))
+//@   replace_re "(?P<Q>\\w+)\\s*\\.iter\\(\\)\\s*\\.filter\\(\\|(?P<X>\\w+)\\| (?P<C>[^\\n]*)\\)\\s*\\n\\s*\\.map\\(\\|(?P<Y>\\w+)\\| (?P<E>[^\\n]*)\\)\\s*\\n\\s*\\.sum::<Uint128>\\(\\)" => "{ let mut vx_s = Uint128::zero(); let mut vx_j: usize = 0;\n while vx_j < \\g<Q>.len()\n invariant vx_j <= \\g<Q>@.len(),\n decreases \\g<Q>@.len() - vx_j,\n { let \\g<X> = &\\g<Q>[vx_j]; if \\g<C> { let \\g<Y> = \\g<X>; vx_s = vx_s + \\g<E>; }\n vx_j += 1; }\n vx_s }"
+//@   replace "_ => break," => "_ => { vx_release_ps(staking_storage); break }"
+//@   replace_re? "if (?P<A>\\w+) <= &(?P<B>[\\w.]+) =>" => "if *\\g<A> <= *(&\\g<B>) =>"
+//@   begin broadcast use {axiom_vec_canon, axiom_vec_of_view, axiom_str_canon, axiom_str_of_view, lemma_str_ext_b, lemma_vec_ext_b}; let ghost s0 = storage.view(); proof { axiom_addr_key_laws(); lemma_splice_same(storage.view(), lp(ns_staking())); }
+//@   after "re:^\\s*\\.unwrap_or_default\\(\\);\\s*$" let ghost q0 = unbonding_queue@; proof { assert(q0 == queue_of(sw(s0))); }
+//@   loop 0 invariant [C14.pq.loop_inv0] s0 == old(storage).view()
+//@   loop 0 invariant [C14.pq.loop_inv_swf,C15] swf(sw(storage.view()))
+//@   loop 0 invariant [C14.pq.loop_inv,C15] pq_inv(router, *self, s0, q0, storage.view(), unbonding_queue@, *block)
+//@   loop 0 ensures [C14.pq.loop_exit] unbonding_queue@.len() == 0 || !pq_due(unbonding_queue@[0], block.time)
+//@   loop 0 decreases unbonding_queue@.len()
+//@   after "re:^\\s*let mut staking_storage = prefixed\\(storage, NAMESPACE_STAKING\\);\\s*$@@0" let ghost s_it = staking_storage.base_view(); let ghost q_it = unbonding_queue@; proof { axiom_addr_key_laws(); lemma_splice_same(s_it, lp(ns_staking())); }
+//@   after "re:^\\s*\\} = unbonding_queue\\.pop_front\\(\\)\\.unwrap\\(\\);\\s*$" let ghost u = q_it[0]; let ghost w_a = staking_storage.view(); proof { assert(unbonding_queue@ =~= q_it.drop_first()); assert(u.delegator == delegator && u.validator == validator && u.amount == amount); assert(pq_due(u, block.time)); }
+//@   before "re:^\\s*validator_info\\.stakers\\.remove\\(&delegator\\);\\s*$" let ghost vi0 = validator_info; proof { assert(get_vinfo(w_a, validator@) == Ok::<Option<ValidatorInfo>, StdError>(Some(vi0))); }
+//@   after "re:^\\s*\\)\\?;\\s*$@@0" proof { axiom_cw_roundtrip(validator_info); assert(validator_info.stakers@ == vi0.stakers@.remove(delegator)); assert(get_vinfo(staking_storage.view(), validator@) == Ok::<Option<ValidatorInfo>, StdError>(Some(validator_info))); }
+//@   before "re:^\\s*let staking_info = Self::get_staking_info\\(&staking_storage\\)\\?;\\s*$" let ghost w1 = staking_storage.view(); proof { let d = u.delegator; let v = u.validator@; lemma_keys_disjoint(d, v, v); let ks = k_stake(d, v); if w_a.contains_key(ks) && !w1.contains_key(ks) { assert(has_shares(w_a, d, v)); assert(has_staker(w_a, v, d)); assert(frame2(w_a, w1, d, v)); assert(get_vinfo(w_a, v) matches Ok(Some(_))); assert(w1.contains_key(k_vinfo(v))); assert(get_vinfo(w1, v) matches Ok(Some(_))); assert((get_vinfo(w1, v)->Ok_0->0).stakers@ == (get_vinfo(w_a, v)->Ok_0->0).stakers@.remove(d)); lemma_frame2_swf(w_a, w1, d, v); } else { assert(w1 =~= w_a); } assert(pq_cleaned(w_a, w1, u)); }
+//@   before "re:^\\s*router\\.execute\\(\\s*$" let ghost s_mid = storage.view(); proof { assert(s_mid == splice(s_it, lp(ns_staking()), w1)); }
+//@   after "re:^\\s*\\)\\?;\\s*$@@1" proof { assert(exists|m: CosmosMsg<ExecC>| router.exec_sem(s_mid, *block, self.module_addr, m).0 is Ok && router.exec_sem(s_mid, *block, self.module_addr, m).1 == storage.view()); }
+//@   after "re:^ {20}\\}\\s*$@@1" proof { let sc = splice(s_it, lp(ns_staking()), w1); lemma_splice_window(s_it, lp(ns_staking()), w1); if u.amount.u != 0 { assert(exists|m: CosmosMsg<ExecC>| router.exec_sem(sc, *block, self.module_addr, m).0 is Ok && router.exec_sem(sc, *block, self.module_addr, m).1 == storage.view()); assert(exists|m: CosmosMsg<ExecC>| m is Bank && (m->Bank_0) is Send && router.exec_sem(sc, *block, self.module_addr, m).0 is Ok && router.exec_sem(sc, *block, self.module_addr, m).1 == storage.view()); assert(exists|m: CosmosMsg<ExecC>| m is Bank && (m->Bank_0) is Send && (m->Bank_0)->to_address@ == u.delegator.s@ && router.exec_sem(sc, *block, self.module_addr, m).0 is Ok && router.exec_sem(sc, *block, self.module_addr, m).1 == storage.view()); assert(exists|m: CosmosMsg<ExecC>| m is Bank && (m->Bank_0) is Send && (m->Bank_0)->to_address@ == u.delegator.s@ && (m->Bank_0)->Send_amount@.len() == 1 && (m->Bank_0)->Send_amount@[0].amount == u.amount && router.exec_sem(sc, *block, self.module_addr, m).0 is Ok && router.exec_sem(sc, *block, self.module_addr, m).1 == storage.view()); assert(exists|m: CosmosMsg<ExecC>| m is Bank && (m->Bank_0) is Send && (m->Bank_0)->to_address@ == u.delegator.s@ && (m->Bank_0)->Send_amount@.len() == 1 && (m->Bank_0)->Send_amount@[0].amount == u.amount && (m->Bank_0)->Send_amount@[0].denom@ == sinfo_denom(w1) && router.exec_sem(sc, *block, self.module_addr, m).0 is Ok && router.exec_sem(sc, *block, self.module_addr, m).1 == storage.view()); let m = choose|m: CosmosMsg<ExecC>| m is Bank && (m->Bank_0) is Send && (m->Bank_0)->to_address@ == u.delegator.s@ && (m->Bank_0)->Send_amount@.len() == 1 && (m->Bank_0)->Send_amount@[0].amount == u.amount && (m->Bank_0)->Send_amount@[0].denom@ == sinfo_denom(w1) && router.exec_sem(sc, *block, self.module_addr, m).0 is Ok && router.exec_sem(sc, *block, self.module_addr, m).1 == storage.view(); lemma_pay_msg::<ExecC>(m, u, sinfo_denom(w1)); axiom_router_bank_frame(router, sc, *block, self.module_addr, m->Bank_0); } assert(w_a == sw(s_it)); assert(pq_cleaned(sw(s_it), w1, u)); if u.amount.u == 0 { assert(storage.view() == sc); } else { let pr = router.exec_sem(sc, *block, self.module_addr, pay_msg::<ExecC>(u, sinfo_denom(w1))); assert(pr.0 is Ok); assert(pr.1 == storage.view()); } assert(pq_step(router, *self, s_it, storage.view(), *block, u)); lemma_pq_inv_step(router, *self, s0, q0, s_it, q_it, storage.view(), *block); }
+//@   before "re:^\\s*let mut staking_storage = prefixed\\(storage, NAMESPACE_STAKING\\);\\s*$@@1" let ghost se = storage.view(); let ghost qe = unbonding_queue@; proof { assert(pq_run(router, *self, se, *block, qe, se, qe)); assert(pq_run(router, *self, s0, *block, q0, se, qe)); }
+//@   before "re:^\\s*Ok\\(AppResponse::default\\(\\)\\)\\s*$" proof { axiom_cw_roundtrip(unbonding_queue); let wf = sw(se).insert(k_queue(), unbonding_queue.ser()); lemma_splice_window(se, lp(ns_staking()), wf); assert(storage.view() == splice(se, lp(ns_staking()), wf)); assert(forall|kk: Seq<u8>| kk != k_queue() ==> #[trigger] same_at(wf, sw(se), kk)); lemma_queue_write_swf(sw(se), wf); assert(queue_processed(router, *self, s0, storage.view(), *block)); }
+//@ end
+}
+
 // ---- distribution: reward withdrawal
 pub open spec fn dw(s: St) -> St { window(s, lp(ns_distribution())) }
 pub open spec fn k_withdraw(d: Addr) -> Seq<u8> { lp(str_bytes("withdraw_address"@)) + d.bytes() }
